@@ -110,6 +110,12 @@ int run_script(std::size_t block_size, const std::string& header)
             if (w == "used") allocator_traits<Stack>::allocate_node(*n, 1, 1);
             *n = std::move(*st); graveyard.push_back(st); st = n; markers.clear(); live.clear(); res = "assigned";
         }
+        else if (op == "mfa")
+        {
+            U.fail_at = -1;
+            if (graveyard.empty()) res = "skipped";
+            else { Stack* g = graveyard.back(); graveyard.pop_back(); Stack* f = new (U.place(sizeof(Stack))) Stack(block_size); *g = std::move(*f); g->~Stack(); graveyard.push_back(f); res = "done"; }
+        }
         else if (op == "destroy") { check("before-destroy"); st->~Stack(); for (auto g : graveyard) g->~Stack(); std::printf("destroy = ok |%s | leaks=%ld amounts=%s\n", U.take().c_str(), hc().leak, leak_list().c_str()); break; }
         else { std::printf("? %s\n", line.c_str()); continue; }
         std::string ev = U.take();
